@@ -232,7 +232,7 @@ def cons_names(t):
 def gen_cases(prop, seed, n_types, per):
     rnd = random.Random(seed * 1000003 + hash(prop) % 997 if False else seed * 1000003 + sum(map(ord, prop)))
     pool = Pool(); g = Gen(rnd, pool, KINDS_BY_PROP.get(prop))
-    if prop in ("C02", "C03", "C08") and not KINDS_BY_PROP.get(prop): g.kinds = g.kinds + ["depreq"]
+    if prop in ("C02", "C03", "C08") and not KINDS_BY_PROP.get(prop): g.kinds = g.kinds + ["depreq", "aggregate"]
     if prop == "C08": g.kinds = g.kinds + ["postinit", "postinit"]
     types = []
     for _ in range(n_types):
@@ -288,7 +288,7 @@ def evaluate(prop, t, tp, d, o, ns, mo):
     im = run_impl(tp, d, o, keep=keep)
     # outside the model's datum type: instances of subclasses of the JSON classes; dicts with non-string keys under a
     # uniqueness test (`to_hashable` sorts the items: whether that works depends on the keys' classes)
-    modelled = not ({"depreq", "postinit"} & t.features()) and not has_other(d, SUBCLASSED) and not ('"dn"' in json.dumps(dproto(d)) and ({"clist", "set", "frozenset"} & t.features()))
+    modelled = not ({"depreq", "postinit", "aggregate"} & t.features()) and not has_other(d, SUBCLASSED) and not ('"dn"' in json.dumps(dproto(d)) and ({"clist", "set", "frozenset"} & t.features()))
     m = canon_model(mo["model"]) if "model" in mo else None
     oos = isinstance(m, dict) and str(m.get("crash", "")).startswith("ModelScope")
     k_ok = None if (m is None or oos or not modelled) else same(im, m)
@@ -419,6 +419,8 @@ def at_any(t, d, path):
     if k in ("dataclass", "namedtuple", "typeddict") and isinstance(d, dict) and step in d:
         for f in t.fields:
             if f["alias"] == step: return at_any(f["ty"], d[step], rest)
+        agg = getattr(t, "aggregate", None)
+        if agg and agg.get("value", (None,))[0] == "Any": return True      # values of a `properties` mapping typed Dict[str, Any]
         return k == "typeddict"       # extra keys of a TypedDict are returned as they are
     return False
 
@@ -647,6 +649,9 @@ KF = {
     # key first; each reports only one of the two errors, at the same location
     "KF30": lambda c, why, im, k_ok: why == ["result-depends-on-no_copy"] and k_ok is True and "mapping" in c["features"]
                                      and _same_locs(c.get("info", {}).get("differs", {})),
+    # a `properties(pattern=...)` field matches its pattern against every remaining key: a non-string key raises TypeError
+    "KF45": lambda c, why, im, k_ok: _crash(why, "TypeError") and k_ok is not False and "aggregate-pattern" in c["features"]
+                                     and "expected string or bytes-like object" in im.get("msg", "") and '"dn"' in json.dumps(c["d"]),
     # a non-string key reaches a key method whose bad_type / pattern / literal lookup raises
     "KF11": lambda c, why, im, k_ok: why == ["no_copy=False-shares-a-container-with-the-input"] and k_ok is not False
                                      and c.get("info", {}).get("shared_at_any") is True,
